@@ -16,6 +16,7 @@ CONSTANTS
 INVARIANT SpecSignerNeverBlamed
 INVARIANT JudgeExact
 INVARIANT NoKeyLeak
+INVARIANT PubKeyExact
 INVARIANT DerRoundTrip
 INVARIANT DerClasses
 INVARIANT VerdictExact
